@@ -11,7 +11,7 @@ from yamlfs import DIR
 
 from vinegar.data_source.yaml_target import YamlTargetSource
 
-CURRENT_VARIANTS = [1, 0, 1]      # tag_after, rerender, empty_raises  (what /repo does now)
+CURRENT_VARIANTS = [1, 0, 0]      # tag_after, rerender, empty_raises  (what /repo does now)
 
 
 def run_real(c):
